@@ -75,8 +75,8 @@ QUNITS = {'quantity': 'Jy', 'quantity_pct': 'percent'}
 _Q = dict(
     boxes=[(1, 1), (2, 3), (3, 2), (8, 8), (0, 2), (2, 0)],
     images=[(5, 6), (1, 1), (3, 4), (6, 2)],
-    weights=['ones', 'checker', 'antichecker', 'frac', 'tiny', 'frac_list', 'wide', 'checker@i8', 'ones@bool', 'frac@f4', 'frac@moved'],
-    dtypes=['int64', 'float64', 'quantity', 'uint16', 'quantity_pct'],
+    weights=['ones', 'checker', 'antichecker', 'frac', 'tiny', 'frac_list', 'wide', 'checker@i8', 'ones@bool', 'frac@f4', 'frac@moved', 'signed', 'nondyadic'],
+    dtypes=['int64', 'float64', 'quantity', 'uint16', 'quantity_pct', 'float32'],
     layouts=['C', 'view'],
     fills=['0', '7', 'nan', 'inf'],
     copies=[False, True],
@@ -85,8 +85,8 @@ _Q = dict(
 _T = dict(
     boxes=_Q['boxes'] + [(1, 4), (4, 1), (5, 5), (10, 7), (0, 0)],
     images=_Q['images'] + [(1, 5), (7, 1), (2, 2), (4, 4), (0, 3), (3, 0)],
-    weights=_Q['weights'] + ['nondyadic', 'checker_list'],
-    dtypes=_Q['dtypes'] + ['int32', 'float32'],
+    weights=_Q['weights'] + ['checker_list'],
+    dtypes=_Q['dtypes'] + ['int32'],
     layouts=['C', 'view', 'F'],
     fills=_Q['fills'] + ['-inf', '-2.5'],
     copies=[False, True],
@@ -148,6 +148,8 @@ def _weight(wname, j, i):
         return [Fraction(0), Fraction(1, 2 ** 40), Fraction(1), Fraction(1, 2 ** 30), Fraction(1, 2 ** 27)][(2 * j + 3 * i + 1) % 5]
     if wname == 'wide':      # a caller-built coverage map: weights above 1 are weights like any other
         return [Fraction(0), Fraction(5, 4), Fraction(2), Fraction(1), Fraction(3, 2)][(2 * j + 3 * i + 1) % 5]
+    if wname == 'signed':    # a caller-built map with negative entries: values are returned where the weight is POSITIVE, not where it is non-zero
+        return [Fraction(0), Fraction(-1, 2), Fraction(1), Fraction(1, 4), Fraction(-13, 4)][(2 * j + 3 * i + 1) % 5]
     if wname == 'nondyadic':  # the float nearest to 0, .3, .6, .9 (reference uses that float exactly)
         return Fraction([0.0, 0.3, 0.6, 0.9][(2 * j + 3 * i + 1) % 4])
     raise ValueError(wname)
@@ -638,7 +640,7 @@ def check_multiply(res, ctx, dt, layout, fname):
 
     def exp(j, i):
         w = W[j][i]
-        if w > 0:
+        if w != 0:      # (a negative weight is a weight: the product; only weight 0 may show the fill value)
             return _mulv(cut[j][i], w)
         return (Fraction(0), F)      # statement silent for zero weight: 0 or the fill value
     bad = _grid_cmp(vals.tolist(), exp, g.bny, g.bnx, TOL)
@@ -797,7 +799,10 @@ def _run_ctx(res, ctx, S):
                     continue
                 for copy in S['copies']:
                     check_cutout(res, ctx, dt, layout, fname, copy)
-                check_multiply(res, ctx, dt, layout, fname)
+                if not ctx.wname.startswith('signed'):
+                    # (what fill value x negative weight should be outside the image is not stated: the signed pattern is judged on
+                    # placement, cutout and value extraction only)
+                    check_multiply(res, ctx, dt, layout, fname)
             for mname in S['dmasks']:
                 check_values(res, ctx, dt, layout, mname)
 
